@@ -275,6 +275,36 @@ func (q *seq) step() {
 	op := q.randomOther(c)
 	r := rng.Intn(100)
 	switch {
+	case r < 5:
+		// multi-step: a VALID event arrives before its other-parent (rejected), the parent arrives, then a copy of the
+		// SAME BODY carrying a signature that is not its creator's (by another validator / a corrupted signature string)
+		// arrives before the genuine event: the body hash has been seen with a good signature, the forged copy must still
+		// be refused, and the genuine one admitted afterwards
+		o := (c + 1) % q.n
+		spo, idxo := q.headHex(o)
+		e1 := q.mkEvent(o, spo, q.randomOther(o), idxo, q.txs(), nil, o)
+		e2 := q.mkEvent(c, sp, e1.Hex(), idx, q.txs(), nil, c)
+		q.attempt("valid-before-its-other-parent", e2)
+		q.attempt("valid", e1)
+		forged := &hg.Event{Body: e2.Body}
+		if rng.Intn(2) == 0 {
+			forged.Sign(q.w.Privs[o])
+		} else {
+			forged.Signature = e1.Signature // a well-formed signature of something else
+		}
+		q.attempt("same-body-forged-signature", forged)
+		q.attempt("valid", &hg.Event{Body: e2.Body, Signature: e2.Signature})
+	case r < 8:
+		// a body that was already attempted (admitted or rejected), re-submitted under another signature
+		var pool []*hg.Event
+		pool = append(pool, q.admitted...)
+		pool = append(pool, q.rejected...)
+		if len(pool) > 0 {
+			src := pool[rng.Intn(len(pool))]
+			forged := &hg.Event{Body: src.Body}
+			forged.Sign(q.w.Privs[(q.w.Ord(src.Creator())+1+q.n)%q.n])
+			q.attempt("seen-body-forged-signature", forged)
+		}
 	case r < 55:
 		q.attempt("valid", q.mkEvent(c, sp, op, idx, q.txs(), nil, c))
 	case r < 59:
